@@ -1,0 +1,15 @@
+//go:build verif
+// +build verif
+
+package cluster
+
+// VerifYield, when set by the verification harness, is called at the marked
+// points of Conn (between taking one of its locks and what follows): it may
+// yield or sleep to widen the window other goroutines can run in.
+var VerifYield func(point string)
+
+func verifYield(point string) {
+	if f := VerifYield; f != nil {
+		f(point)
+	}
+}
